@@ -203,3 +203,52 @@ def check_driver(model, rep, rule):
             witness='three nested loops: the solution needs more than a fixed '
             'number of evaluations per node')
   return ok
+
+
+# ---------------------------------------------------------------- value types
+INPLACE_DUNDERS = ('__ior__', '__iadd__', '__isub__', '__iand__', '__ixor__')
+_MUTATORS = {'update', 'add', 'discard', 'remove', 'pop', 'clear', 'append',
+             'extend', 'setdefault', 'popitem', 'difference_update',
+             'intersection_update', 'symmetric_difference_update'}
+
+
+def check_value_type(rep, rule, cls, why=None):
+  """The lattice state class is a value type: the analysis aliases states
+  (`x = self.out[n]`) and compares the old and the new value to decide whether
+  to revisit.  So outside __init__ no method may mutate the receiver or return
+  it, and no in-place operator may be defined (Python then falls back to the
+  pure binary operator)."""
+  why = why or ('the transfer function keeps references to previous states and '
+                'compares old with new: a method that mutates its receiver makes '
+                'the comparison trivially equal and the fixed point iteration '
+                'stops early')
+  for name in INPLACE_DUNDERS:
+    rep.check(name not in cls.methods, rule, '%s:no(%s)' % (cls.site, name), why,
+              line=cls.methods[name].node.lineno if name in cls.methods else None,
+              witness='`defs_in = prev_out; defs_in |= other` mutates prev_out',
+              nontrivial=False)
+  for name, m in sorted(cls.methods.items()):
+    if name in ('__init__',) or name in INPLACE_DUNDERS:
+      continue
+    bad = []
+    for x in core.walk_no_nested(m.node):
+      if isinstance(x, (ast.Assign, ast.AugAssign, ast.Delete)):
+        tgs = x.targets if not isinstance(x, ast.AugAssign) else [x.target]
+        for t in tgs:
+          b = t
+          while isinstance(b, (ast.Attribute, ast.Subscript)):
+            b = b.value
+          if isinstance(b, ast.Name) and b.id == 'self' and t is not b:
+            bad.append(core.norm(x)[:60])
+      elif isinstance(x, ast.Call) and isinstance(x.func, ast.Attribute) and \
+          x.func.attr in _MUTATORS:
+        b = x.func.value
+        while isinstance(b, (ast.Attribute, ast.Subscript)):
+          b = b.value
+        if isinstance(b, ast.Name) and b.id == 'self':
+          bad.append(core.norm(x)[:60])
+      elif isinstance(x, ast.Return) and isinstance(x.value, ast.Name) and \
+          x.value.id == 'self':
+        bad.append('return self')
+    rep.check(not bad, rule, '%s:pure(%s)' % (cls.site, name), why,
+              {'mutations': bad}, line=m.node.lineno)
